@@ -2,7 +2,10 @@
 use crate::SendMode;
 use crate::frame;
 
+#[cfg(not(feature = "verif"))]
 use std::time;
+#[cfg(feature = "verif")]
+use crate::verif::time;
 
 mod emit;
 mod frame_ack_queue;
@@ -16,6 +19,9 @@ mod recv_rate_set;
 mod reorder_buffer;
 mod resend_queue;
 mod send_rate;
+
+#[cfg(feature = "verif")]
+pub use send_rate::{SendRateComp, FeedbackData};
 
 #[cfg(test)]
 mod packet_tests;
@@ -437,6 +443,7 @@ unsafe impl Send for HalfConnection {}
 
 // Internal RefCell objects cannot be accessed through a &HalfConnection
 unsafe impl Sync for HalfConnection {}
+
 
 #[cfg(test)]
 mod tests {
